@@ -672,6 +672,7 @@ fn hangs_in_isolation(id: &str, index: u64, tier: Tier) -> bool {
     let Ok(exe) = std::env::current_exe() else {
         return true;
     };
+    let _shared = crate::props::c20::SPAWN_LOCK.read().unwrap_or_else(std::sync::PoisonError::into_inner);
     let child = std::process::Command::new(exe)
         .arg("one")
         .arg(id)
@@ -680,6 +681,7 @@ fn hangs_in_isolation(id: &str, index: u64, tier: Tier) -> bool {
         .stdout(std::process::Stdio::null())
         .stderr(std::process::Stdio::null())
         .spawn();
+    drop(_shared);
     match child {
         Ok(mut c) => wait_limited(&mut c, Duration::from_secs(90)).is_none(),
         Err(_) => true,
